@@ -36,18 +36,18 @@ KERNELS = {
             'zoom_out', 'shift_out', 'spline_filter_out'],
     'C13': ['labeled_sum', 'labeled_max', 'labeled_min', 'labeled_size', 'bbox', 'labeled_bbox', 'relabel', 'remove_bordering',
             'remove_regions', 'is_same_labeling', 'filter_labeled', 'borders', 'border', 'bwperim', 'center_of_mass',
-            'center_of_mass_labels', 'fullhistogram', 'croptobbox'],
+            'center_of_mass_labels', 'fullhistogram', 'fullhistogram_u16', 'croptobbox'],
     'C14': ['locmax', 'locmin', 'regmax', 'regmin', 'regmax_bc', 'locmax_shared_bc', 'regmin_shared_bc', 'close_holes',
             'hitmiss', 'hitmiss_u8', 'locmax_float_bc', 'regmin_float_bc', 'close_holes_bc'],
     'C15': ['thin', 'euler', 'euler_4', 'convexhull', 'fill_convexhull'],
-    'C16': ['otsu', 'otsu_ignore_zeros', 'rc', 'bernsen', 'gbernsen', 'soft_threshold'],
+    'C16': ['otsu', 'otsu_u16', 'otsu_ignore_zeros', 'rc', 'rc_u16', 'bernsen', 'gbernsen', 'soft_threshold'],
     'C17': ['haar', 'ihaar', 'daubechies', 'idaubechies', 'daubechies_d8', 'wavelet_center'],
     'C18': ['shift', 'shift_order1', 'zoom', 'spline_filter', 'spline_filter1d', 'imresize', 'resize_to'],
     'C19': ['haralick', 'haralick_3d', 'cooccurence', 'lbp', 'lbp_transform', 'zernike_moments', 'moments', 'surf_integral'],
     'C20': ['stretch', 'stretch_rgb', 'rgb2xyz', 'rgb2lab', 'rgb2grey', 'rgb2sepia', 'xyz2rgb', 'as_rgb'],
 }
-SLOW = {'haralick', 'haralick_3d'}
-MEDIUM = {'thin', 'zernike_moments', 'lbp', 'lbp_transform', 'daubechies_d8'}
+SLOW = {'haralick', 'haralick_3d', 'rc_u16'}
+MEDIUM = {'thin', 'zernike_moments', 'lbp', 'lbp_transform', 'daubechies_d8', 'otsu_u16', 'fullhistogram_u16'}
 # C08 speaks about every public function: the union of the above
 KERNELS['C08'] = sorted({k for ks in KERNELS.values() for k in ks})
 RULE = ('per function of the property: the same function on three inputs of different shapes from 4-8 threads; one mix of all the '
@@ -67,7 +67,7 @@ def cases(rng, tier):
         return []
     reps = dict(quick=6, thorough=20, search=10)[tier if tier in ('quick', 'thorough', 'search') else 'quick']
     out = []
-    pick = names if tier != 'quick' else (names if len(names) <= 6 else rng.sample(names, 6))
+    pick = names if tier != 'quick' else (names if len(names) <= 10 else rng.sample(names, 8))
 
     def sizes_for(k):
         # images large enough that two calls really overlap while the lock is released (measured: a shared renumbering
